@@ -157,6 +157,12 @@ example : wrapChain ([.blur 2e-3] ++ [.blur 1e-3]) (fun x : ℝ => lorentzian x 
     wrapChain [.blur 2e-3] (fun x : ℝ => lorentzian x 120 0.5) 249 :=
   (wrap_chain_step_order _ _ (fun x => (lorentzian_pos x 120 0.5 (by norm_num) (by norm_num)).le) 1e-3 0 0 249).1
 
+/-- Carrying a drag coefficient over (`_set_drag`) changes what the model reports as its drag, not the spectrum: bead
+    radius, densities, the distance to the surface (in metres) and the bulk drag bound at construction all stay. -/
+theorem set_drag_keeps_spectrum (m : Passive ℝ) (g f fc D fd a : ℝ) :
+    (m.setDrag g).call f fc D fd a = m.call f fc D fd a ∧ (m.setDrag g).dragCoeff = g ∧
+      (m.setDrag g).drag = g * m.dragCorrection := ⟨rfl, rfl, rfl⟩
+
 /-- The hydrodynamically correct spectrum in bulk is positive at every positive frequency. -/
 theorem hydro_bulk_pos (f fc D g R rhoS rhoB : ℝ) (hf : 0 < f) (hD : 0 < D) (hg : 0 < g) (hR : 0 < R)
     (hrho : 0 < rhoS) : 0 < hydroPsd f fc D g R rhoS rhoB none := by
